@@ -37,12 +37,15 @@ type zzFin13Hash struct{ buf []byte }
 func (h *zzFin13Hash) Write(p []byte) (int, error) { h.buf = append(h.buf, p...); return len(p), nil }
 func (h *zzFin13Hash) Sum(b []byte) []byte         { return append(b, zzFin13H(h.buf)...) }
 func (h *zzFin13Hash) Reset()                      { h.buf = nil }
-func (h *zzFin13Hash) Size() int                   { return 32 }
-func (h *zzFin13Hash) BlockSize() int              { return 64 }
+func (h *zzFin13Hash) Size() int                   { return zzFin13Len }
+func (h *zzFin13Hash) BlockSize() int              { return 2 * zzFin13Len }
 
 func zzFin13NewHash() hash.Hash { return &zzFin13Hash{} }
 
-func zzFin13H(data []byte) []byte { return zzsymUF("H", 32, data) }
+// zzFin13Len is Hash.length of the suite under test: 32 (SHA-256 suites) or 48 (TLS_AES_256_GCM_SHA384).
+var zzFin13Len = 32
+
+func zzFin13H(data []byte) []byte { return zzsymUF("H", zzFin13Len, data) }
 
 func zzFin13Sum256(b []byte) [32]byte {
 	var out [32]byte
@@ -56,14 +59,14 @@ type zzFin13Hmac struct{ key, buf []byte }
 func (h *zzFin13Hmac) Write(p []byte) (int, error) { h.buf = append(h.buf, p...); return len(p), nil }
 func (h *zzFin13Hmac) Sum(b []byte) []byte         { return append(b, zzFin13HMAC(h.key, h.buf)...) }
 func (h *zzFin13Hmac) Reset()                      { h.buf = nil }
-func (h *zzFin13Hmac) Size() int                   { return 32 }
-func (h *zzFin13Hmac) BlockSize() int              { return 64 }
+func (h *zzFin13Hmac) Size() int                   { return zzFin13Len }
+func (h *zzFin13Hmac) BlockSize() int              { return 2 * zzFin13Len }
 
 func zzFin13HmacNew(_ func() hash.Hash, key []byte) hash.Hash {
 	return &zzFin13Hmac{key: append([]byte{}, key...)}
 }
 
-func zzFin13HMAC(key, msg []byte) []byte { return zzsymUF("HMAC", 32, key, msg) }
+func zzFin13HMAC(key, msg []byte) []byte { return zzsymUF("HMAC", zzFin13Len, key, msg) }
 
 func zzFin13ExpandLabel(h func() hash.Hash, secret []byte, label string, context []byte, length int) ([]byte, error) {
 	if h == nil {
@@ -189,8 +192,8 @@ func zzFin13Cat(parts ...[]byte) []byte {
 // ServerHello - and, when the server checks the client's flight, the server's EncryptedExtensions,
 // [CertificateRequest], Certificate, CertificateVerify, Finished. The flight under test is EncryptedExtensions,
 // [CertificateRequest], [Certificate, CertificateVerify], Finished from the server, or [Certificate,
-// CertificateVerify], Finished from the client. Bodies NBODY arbitrary bytes, verify_data 32 (or 31) arbitrary
-// bytes, both handshake traffic secrets NSEC arbitrary bytes. Proved: the flight is accepted only if
+// CertificateVerify], Finished from the client. Bodies NBODY arbitrary bytes, verify_data Hash.length (or one less) arbitrary
+// bytes, both handshake traffic secrets NSEC arbitrary bytes, Hash.length 32 (SHA-256 suites) and 48 (the SHA-384 suite). Proved: the flight is accepted only if
 // verify_data = HMAC(HKDF-Expand-Label(peer's handshake traffic secret, "finished", "", Hash.length),
 // Transcript-Hash(all messages before this Finished)) (RFC 8446 section 4.4.4) with the transcript made of the
 // 4-byte-header form of every message in order (RFC 9147 section 5.2), the first ClientHello replaced by
@@ -199,9 +202,13 @@ func zzFin13Cat(parts ...[]byte) []byte {
 // before it); on success the transcript holds everything including the Finished, on failure it is unchanged
 // (nothing is committed before Finished verifies).
 //
-//symgo:entry covers=accepted_server_flight,accepted_client_flight,rejected_verify_data,rejected_short,after_hrr,with_cert,without_cert,with_certreq
+//symgo:entry covers=sha384_after_hrr,accepted_server_flight,accepted_client_flight,rejected_verify_data,rejected_short,after_hrr,with_cert,without_cert,with_certreq
 func zzFin13() {
 	zzFin13CVLog = nil
+	zzFin13Len = 32
+	if zzsymChoice("sha384", 2) == 1 {
+		zzFin13Len = 48
+	}
 	peerIsClient := zzsymChoice("peer_is_client", 2) == 1
 	hrr := zzsymChoice("hrr", 2) == 1
 	hasCert := zzsymChoice("peer_cert", 2) == 1
@@ -245,7 +252,7 @@ func zzFin13() {
 		add(hr)
 		// RFC 8446 4.4.1: Transcript-Hash(ClientHello1, HelloRetryRequest, ...) =
 		//   Hash(message_hash || 00 00 Hash.length || Hash(ClientHello1) || HelloRetryRequest || ...)
-		want = zzFin13Cat([]byte{254, 0, 0, 32}, zzFin13H(ch1.tls), hr.tls)
+		want = zzFin13Cat([]byte{254, 0, 0, byte(zzFin13Len)}, zzFin13H(ch1.tls), hr.tls)
 	}
 	ch := fl.mk("ch", handshake.TypeClientHello, true, &handshake.MessageClientHello{})
 	sh := fl.mk("sh", handshake.TypeServerHello, false, &handshake.MessageServerHello{})
@@ -299,7 +306,7 @@ func zzFin13() {
 			want = zzFin13Cat(want, scv.tls)
 		}
 	}
-	vdLen := 32 - zzsymChoice("verify_data_short", 2)
+	vdLen := zzFin13Len - zzsymChoice("verify_data_short", 2)
 	verifyData := zzsymBytes("verify_data", vdLen)
 	fin := fl.mkBody(handshake.TypeFinished, peerIsClient, verifyData, &handshake.MessageFinished{VerifyData: verifyData})
 	flight = append(flight, fin)
@@ -315,7 +322,7 @@ func zzFin13() {
 	if peerIsClient {
 		peerSecret = clientSecret
 	}
-	finishedKey := zzFin13EL(peerSecret, "finished", nil, 32)
+	finishedKey := zzFin13EL(peerSecret, "finished", nil, zzFin13Len)
 	wantVD := zzFin13HMAC(finishedKey, zzFin13H(want))
 
 	// RFC 8446 4.4.3: content covered by CertificateVerify
@@ -341,6 +348,9 @@ func zzFin13() {
 		}
 		if hrr {
 			zzsymCover("after_hrr")
+			if zzFin13Len == 48 {
+				zzsymCover("sha384_after_hrr")
+			}
 		}
 		if hasCert {
 			zzsymCover("with_cert")
@@ -355,7 +365,7 @@ func zzFin13() {
 	zzsymAssert(zzsymEqBytes(tr.Bytes(), before), "fin13/nothing_committed_on_failure")
 	if err == dtlserrors.ErrVerifyDataMismatch {
 		zzsymAssert(zzsymNot(zzsymEqBytes(verifyData, wantVD)), "fin13/rejects_only_wrong_verify_data")
-		if vdLen == 32 {
+		if vdLen == zzFin13Len {
 			zzsymCover("rejected_verify_data")
 		} else {
 			zzsymCover("rejected_short")
